@@ -3115,6 +3115,105 @@ example : ¬ (SegX.text [tk .word "take".toList, tk .ws [' '], tk .int ['2'], tk
   have := (h (by decide)).2
   revert this
   decide
+
+/-- **`parse_quantity` with filler inside a TEXT VALUE** (`{a [- c -] few%pinches}`, `{=a [- c -] few}`): `lF` is the
+    text-value leaf `l` (words and single blanks, not number-like) with block comments / blank whitespace tokens
+    inserted behind one of its blanks (`FillerIn`), the unit may carry filler too.  `parse_quantity` gives the text
+    value `text_trimmed` = the string of the CLEAN leaf, the same lock and unit, no diagnostic, and hands the outer
+    parser back untouched — under both settings of ADVANCED_UNITS (with it and without `%`: the text starts with a
+    word, `advSafe`, so the advanced form declines before and after) and of RANGE_VALUES.  Instance of
+    `C17_parse_quantity_filler_in_unit`, whose relation `QtyFiller` admits such values since wave 10 (`ValFiller`);
+    through `CompFiller` / `TimerFiller` / `DocItemF` the component-level theorems `C17_ingredient/cookware/timer_filler_in_body`
+    and the recipe-level `C17_filler_in_component_bodies_same_recipe` cover text values with filler as well. -/
+theorem C17_parse_quantity_filler_in_text_value {α : Type} [Arith α] (lF l : List Tok) (hFl : FillerIn lF l)
+    (lock : Bool) (uF u : Option (List Tok)) (hU : OptRel FillerIn uF u) (p : QPad) (outer : BP α)
+    (hsp : outer.cs.uws ' ' = true) (hq : ({ lock := lock, val := .text l, unit := u } : AQty).ok outer.cs = true)
+    (hp : p.ok outer.cs = true)
+    (hadv : outer.ext.has Gen.EXT_ADVANCED_UNITS = true → ({ lock := lock, val := .text l, unit := u } : AQty).advSafe = true)
+    (ts : List Tok) (hs : Spells ts (spellQty { lock := lock, val := .text lF, unit := uF } p))
+    (hrun : RunAt (baseOff ts) ts) :
+    ∃ vspan lspan unitT sep,
+      parseQuantity ts outer = (⟨⟨⟨⟨⟨.text (leafText l), vspan⟩, lspan⟩, unitT⟩, tokensSpan ts⟩, sep⟩, outer) ∧
+      lspan.isSome = lock ∧ unitT.map (fun t => t.trimmed outer.cs) = u.map leafText ∧ sep.isSome = u.isSome :=
+  C17_parse_quantity_filler_in_unit { lock := lock, val := .text lF, unit := uF } { lock := lock, val := .text l, unit := u }
+    ⟨rfl, ValFiller.text lF l hFl, hU⟩ p outer hsp hq hp (by intro h; cases h) hadv ts hs hrun
+
+/-! non-vacuity, recipe level: `Add @salt{a [- c -] few%small [- c -] pinches} now⏎` against
+    `Add @salt{a few%small pinches} now⏎` -/
+def C17_w10ValF : AComp :=
+  { name := [tk .word "salt".toList],
+    qty := some { val := .text ([tk .word "a".toList] ++ tk .ws [' '] :: (C17_exFillerTok ++ [tk .word "few".toList])),
+                  unit := some ([tk .word "small".toList] ++ tk .ws [' '] :: (C17_exFillerTok ++ [tk .word "pinches".toList])) } }
+def C17_w10Val : AComp :=
+  { name := [tk .word "salt".toList],
+    qty := some { val := .text ([tk .word "a".toList] ++ tk .ws [' '] :: [tk .word "few".toList]),
+                  unit := some ([tk .word "small".toList] ++ tk .ws [' '] :: [tk .word "pinches".toList]) } }
+theorem C17_w10ValFiller : CompFiller C17_w10ValF C17_w10Val :=
+  ⟨rfl, FillerIn.same _, trivial, trivial,
+   ⟨rfl, ValFiller.text _ _ (FillerIn.ins _ _ _ _ (by simp) rfl C17_exFiller_pad),
+    FillerIn.ins _ _ _ _ (by simp) rfl C17_exFiller_pad⟩⟩
+
+def C17_w10DocValF : List (DocItemF × List Tok) :=
+  [(.stepF [.x (.text [tk .word "Add".toList, tk .ws [' ']]), .ingredient C17_w10ValF C17_w10Val {},
+            .x (.text [tk .ws [' '], tk .word "now".toList])], [tk .newline ['\n']])]
+def C17_w10DocVal : List (DocItem × List Tok) :=
+  [(.step [.text [tk .word "Add".toList, tk .ws [' ']], .ingredient C17_w10Val {},
+           .text [tk .ws [' '], tk .word "now".toList]], [tk .newline ['\n']])]
+
+example : render ([] ++ docSpecF C17_w10DocValF) = "Add @salt{a [- c -] few%small [- c -] pinches} now\n".toList ∧
+    render ([] ++ docSpec C17_w10DocVal) = "Add @salt{a few%small pinches} now\n".toList := by decide
+
+theorem C17_w10DocVal_wf : DocWF Rat C17_toyEnv [] C17_w10DocVal := by
+  have h1 : (∀ d ∈ C17_w10DocVal, d.1.ok C17_toyEnv.cs C17_toyEnv.ext = true) ∧ (∀ d ∈ C17_w10DocVal, d.1.simple = true) ∧
+      sepsOK (C17_w10DocVal.map (·.2)) = true ∧ WellSpelled C17_toyEnv.cs ([] ++ docSpec C17_w10DocVal) ∧
+      (parseFrontmatter C17_toyEnv.cs (render ([] ++ docSpec C17_w10DocVal))).isNone = true := by decide
+  obtain ⟨a, b, c, d, e⟩ := h1
+  refine ⟨by decide, a, b, ?_, ?_, c, d, by simpa using e⟩
+  · intro x hx
+    simp only [C17_w10DocVal, List.mem_cons, List.not_mem_nil, or_false] at hx
+    subst hx; trivial
+  · intro x hx
+    simp only [C17_w10DocVal, List.mem_cons, List.not_mem_nil, or_false] at hx
+    subst hx
+    intro sg hsg
+    simp only [List.mem_cons, List.not_mem_nil, or_false] at hsg
+    rcases hsg with rfl | rfl | rfl
+    · intro hh; exact absurd hh (by decide)
+    · trivial
+    · intro hh; exact absurd hh (by decide)
+
+example : SameRecipe (α := Rat) (fun c => c = ' ')
+    (parseRecipe C17_toyEnv (render ([] ++ docSpecF C17_w10DocValF)))
+    (parseRecipe C17_toyEnv (render ([] ++ docSpec C17_w10DocVal))) :=
+  C17_filler_in_component_bodies_same_recipe _ C17_toyEnv (by decide) [] [] C17_w10DocValF C17_w10DocVal C17_w10DocVal_wf rfl
+    (by decide)
+    (by
+      intro d hd
+      simp only [C17_w10DocValF, List.mem_cons, List.not_mem_nil, or_false] at hd
+      subst hd
+      refine ⟨⟨show SegX.ok _ _ _ = true by decide, by decide, ⟨C17_w10ValFiller, by decide, by decide⟩, by decide,
+        show SegX.ok _ _ _ = true by decide, by decide, trivial⟩, by decide, by decide⟩)
+    (by decide) (by decide)
+    (by
+      have : (parseFrontmatter C17_toyEnv.cs (render ([] ++ docSpecF C17_w10DocValF))).isNone = true := by decide
+      simpa using this)
+
+/-! non-vacuity, quantity level, ADVANCED_UNITS on, no `%`: the tokens of `=a [- c -] few` as the model's lexer gives them -/
+example : ∃ vspan lspan unitT sep,
+    parseQuantity (lex toyCharSpec "=a [- c -] few".toList) (⟨[], 0, ⟨Gen.EXT_ADVANCED_UNITS⟩, toyCharSpec, #[], none⟩ : BP Rat) =
+      (⟨⟨⟨⟨⟨.text "a few".toList, vspan⟩, lspan⟩, unitT⟩, tokensSpan (lex toyCharSpec "=a [- c -] few".toList)⟩, sep⟩,
+        ⟨[], 0, ⟨Gen.EXT_ADVANCED_UNITS⟩, toyCharSpec, #[], none⟩) ∧
+    lspan.isSome = true ∧ unitT.map (fun t => t.trimmed toyCharSpec) = none ∧ sep.isSome = false := by
+  obtain ⟨a1, a2⟩ := rtin_lex_spells toyCharSpec 0
+    (spellQty { lock := true, val := .text ([tk .word "a".toList] ++ tk .ws [' '] :: (C17_exFillerTok ++ [tk .word "few".toList])) } {})
+    (by decide)
+  have e : render (spellQty { lock := true, val := .text ([tk .word "a".toList] ++ tk .ws [' '] :: (C17_exFillerTok ++ [tk .word "few".toList])) } {})
+      = "=a [- c -] few".toList := by decide
+  rw [e] at a1 a2
+  exact C17_parse_quantity_filler_in_text_value (α := Rat) _ ([tk .word "a".toList] ++ tk .ws [' '] :: [tk .word "few".toList])
+    (FillerIn.ins _ _ _ _ (by simp) rfl C17_exFiller_pad) true none none trivial {}
+    ⟨[], 0, ⟨Gen.EXT_ADVANCED_UNITS⟩, toyCharSpec, #[], none⟩ (by decide) (by decide) (by decide) (by intro _; decide)
+    (lex toyCharSpec "=a [- c -] few".toList) a1 a2.base
 -- ===== end w10c17val =====
 
 end Cook
